@@ -138,6 +138,28 @@ def check(run, driver):
                                 vz = f(X, Y, Z[:, list(cp)])
                                 if not rel_close(v, vz):
                                     run.prop_fail("estimate depends on the order of the conditioning columns", case, sig("z_col_perm"), {"base": v, "reordered": vz, "column_order": cp}); break
+    # ---- samples of several hundred to a thousand rows, sizes that are not round numbers (blocked / batched evaluation lives there):
+    #      joint row order, X <-> Y, with and without a conditioning set
+    for it, info in enumerate(["knn", "kde", "gaussian", "geometric_knn", "knn"] * (2 if thorough else 1)):
+        N = int(rng.integers(520, 1400 if info != "geometric_knn" else 640))
+        N += 1 if N % 128 == 0 else 0
+        W = rng.standard_normal((N, 3)) @ (rng.standard_normal((3, 3)) * 0.4 + np.eye(3))
+        X, Y, Z = W[:, :1], W[:, 1:2], W[:, 2:]
+        st = {"metric": "euclidean", "k": int(rng.integers(1, 4)), "bandwidth": "silverman"}
+        for cond in (True, False):
+            zz = Z if cond else None
+            path = "Z given" if cond else "Z is None"
+            f = (lambda a, b, c: float(direct[(info, cond)](a, b, c, st))) if it % 2 == 0 else (
+                lambda a, b, c: float(C.conditional_mutual_information(a, b, c, method=info, metric=st["metric"], k=st["k"], bandwidth=st["bandwidth"])))
+            v = f(X, Y, zz)
+            pm = rng.permutation(N)
+            vp = f(X[pm], Y[pm], None if zz is None else zz[pm]); vs = f(Y, X, zz)
+            case = {"estimator": info, "path": path, "N": N, **st, "X": X[:4], "note": "first rows shown; data = seeded stream of this run"}
+            run.case("large-N", [info, cond, N, st["k"], float(W[0, 0])], True, sample={"estimator": info, "path": path, "N": N, "value": v})
+            if not rel_close(v, vp):
+                run.prop_fail("estimate changes when the rows of X, Y and Z are jointly reordered", case, {"estimator": info, "path": path, "transformation": "row_perm", "regime": "N>512"}, {"base": v, "permuted": vp})
+            if not rel_close(v, vs):
+                run.prop_fail("estimate changes when X and Y are exchanged", case, {"estimator": info, "path": path, "transformation": "swap_xy", "regime": "N>512"}, {"I(X;Y|Z)": v, "I(Y;X|Z)": vs})
     # ---- settings history: the same sample evaluated under a SEQUENCE of settings in one process; each value must equal the value of the
     #      jointly row-permuted sample (fresh arrays) under the same settings -- a memo keyed on the data alone answers from the wrong setting
     seqs = {"knn": [dict(metric="euclidean", k=1), dict(metric="euclidean", k=3), dict(metric="chebyshev", k=3), dict(metric="euclidean", k=2)],
